@@ -3674,6 +3674,13 @@ func (r *JournalReader) Next() (err error) {
 	if r.offset == 0 {
 		r.sectorSize = binary.BigEndian.Uint32(hdr[20:])
 
+		// A sector size that SQLite would never write (it must be a power of
+		// two between 32 and 64K) means the header is not valid. A zero sector
+		// size would otherwise make the reader loop over the same header forever.
+		if r.sectorSize < 32 || r.sectorSize > 65536 || r.sectorSize&(r.sectorSize-1) != 0 {
+			return io.EOF
+		}
+
 		// Use page size from journal reader, if set to 0.
 		pageSize := binary.BigEndian.Uint32(hdr[24:])
 		if pageSize == 0 {
